@@ -28,7 +28,7 @@ ADDS = {"n": 0}
 
 
 def plan(tier, seed):
-    n = 1500 if tier == "quick" else 40000
+    n = 3000 if tier == "quick" else 40000
     return [["miss", i] for i in range(n)]
 
 
